@@ -7,6 +7,8 @@ import YadismModel.Model.Couplings
 import YadismModel.Model.Weights
 import YadismModel.Model.Combiner
 import YadismModel.Model.Compat
+import YadismModel.Model.Orders
+import YadismModel.Model.XS
 
 open Yadism Yadism.Proto
 
@@ -78,6 +80,61 @@ def showKThr : KThr → String
 def showOptBool : Option Bool → String
   | none => "-" | some b => showBool b
 
+def rdLabel : RdM Label := do
+  match (← tok) with
+  | "P_qq_0" => pure .Pqq0 | "P_qg_0" => pure .Pqg0 | "P_gq_0" => pure .Pgq0 | "P_gg_0" => pure .Pgg0
+  | "P_nsp_1" => pure .Pnsp1 | "P_nsm_1" => pure .Pnsm1 | "P_qq_1" => pure .Pqq1 | "P_qg_1" => pure .Pqg1
+  | "P_qq_0^2" => pure .Pqq0sq | "P_qg_0P_gq_0" => pure .PqgPgq | "P_qq_0P_qg_0" => pure .PqqPqg
+  | "P_qg_0P_gg_0" => pure .PqgPgg | _ => failure
+
+def rdMat (r c : Nat) : RdM Mat := do
+  let mut out := []
+  for _ in [0:r] do
+    let row ← rats c
+    out := out ++ [row]
+  pure out
+
+def rdSv : RdM String := do
+  let n ← nat; let nf ← nat; let pto ← nat; let actRen ← bool; let actFact ← bool
+  let mut projs : List Mat := []
+  for _ in [0:7] do
+    let m ← rdMat 14 14
+    projs := projs ++ [m]
+  let proj : Sector → Mat := fun s => projs.getD (Sector.all.idxOf s) []
+  let nlab ← nat
+  let mut labs : List (Label × Mat) := []
+  for _ in [0:nlab] do
+    let l ← rdLabel
+    let m ← rdMat n n
+    labs := labs ++ [(l, m)]
+  let ops : Label → Mat := fun l => ((labs.find? fun e => e.1 == l).map (·.2)).getD []
+  let one : Mat := (List.range n).map fun i => (List.range n).map fun j => if i = j then 1 else 0
+  let nker ← nat
+  let mut kers : List KerIn := []
+  for _ in [0:nker] do
+    let intr ← bool
+    let partons ← rats 14
+    let cp ← rat
+    let nv ← nat
+    let mut vals : List (Option Vec) := []
+    for _ in [0:nv] do
+      let present ← bool
+      if present then
+        let v ← rats n
+        vals := vals ++ [some v]
+      else
+        vals := vals ++ [none]
+    kers := kers ++ [{ intrinsic := intr, partons := partons, convPoint := cp, vals := vals }]
+  let fact := sectorMapping pto ops one (beta0 nf)
+  let ren := renCoeffs pto nf
+  let all := (kers.map (kernelOrders actRen actFact fact proj ren)).flatten
+  let keys := buildOrders pto
+  let extra := (all.map (·.key)).filter fun k => !keys.contains k
+  let showKey (k : OKey) : String :=
+    s!"{k.as},{k.aem},{k.lnR},{k.lnF}: " ++ " ".intercalate
+      (((List.range 14).map fun a => (List.range n).map fun j => showRat (tensorEntry all k a j)).flatten)
+  pure (" | ".intercalate ((keys ++ extra.eraseDups).map showKey))
+
 def showPMap (w : PMap) : String :=
   " ".intercalate (flavorBasisPids.map fun p => showRat (w p))
 
@@ -146,6 +203,14 @@ def handle (op : String) : RdM String := do
   | "ms" => do       -- matching scales: ms scheme nfff m2×3 k2×3
       let s ← rdScheme; let n ← nat; let m2 ← rats 3; let k2 ← rats 3
       pure (" ".intercalate ((matchingScales s n m2 k2).map showExt))
+  | "xs" => do       -- xs_coeffs: xs kind y x q2 pid mn m2w gf pi
+      let k ← tok
+      let kind ← (XSKind.ofString? k : Option XSKind)
+      let y ← rat; let x ← rat; let q2 ← rat; let pid ← int
+      let mn ← rat; let m2w ← rat; let gf ← rat; let pi ← rat
+      let (a, b, c) := xsCoeffs kind y x q2 { projectilePID := pid, mn, m2w, gf, pi }
+      pure s!"{showRat a} {showRat b} {showRat c}"
+  | "sv" => rdSv
   | "target" => do   -- update_target table
       let t ← tok
       let name := if t == "_" then "" else t
